@@ -77,11 +77,13 @@ def judge(args, data, r):
         probs.append(("signal%d" % -rc, err[-200:].decode("latin-1")))
     elif rc not in (0, 1):
         probs.append(("exit%r" % rc, err[-200:].decode("latin-1")))
-    shape = "-"
+    shape, result = "-", out
     if not probs:
-        shape, p2 = stdout_shape(args, data, rc, out, err)
+        shape, p2, result = stdout_shape(args, data, rc, out, err)
         probs += p2
-    return (rc, shape, probs, hashlib.sha1(out).hexdigest(), hashlib.sha1(err).hexdigest())
+    # sig: what the run *answered* (exit status, kind of output, the output without the echo of the input)
+    sig = "%r:%s:%s" % (rc, shape, hashlib.sha1(result).hexdigest())
+    return (rc, shape, probs, hashlib.sha1(out).hexdigest(), hashlib.sha1(err).hexdigest(), sig)
 
 
 def _spinfo4(out):
@@ -135,6 +137,7 @@ def stdout_shape(args, data, rc, out, err):
                         inp.add(_norm(ln))
         prog = False
         nprog = 0
+        progl = []
         for ln in out.split(b"\n"):
             t = ln.split()
             if not t:
@@ -144,15 +147,18 @@ def stdout_shape(args, data, rc, out, err):
                 prog = d[1].upper() in PROGRAM_BLOCKS
                 if prog:
                     nprog += 1
+                    progl.append(b" ".join(d))
                     continue
             if prog:
+                progl.append(b" ".join(t))
                 continue
             if _norm(ln) not in inp:
                 probs.append(("stdout-noise", "stdout line neither echoed input nor part of an output block: %r" % ln[:80]))
                 break
         if nprog == 0 and not probs:
             probs.append(("stdout-shape", "stdout is neither a number, a detailed report nor SLHA output with an output block: %r" % out[:80]))
-    return shape, probs
+        return shape, probs, b"\n".join(progl)
+    return shape, probs, out
 
 
 def judge_vg(args, data, r):
@@ -164,7 +170,7 @@ def judge_vg(args, data, r):
         probs.append(("memcheck", (m.group(1) if m else r.err[-200:]).decode("latin-1")))
     elif r.rc not in (0, 1):
         probs.append(("exit%r" % r.rc, r.err[-200:].decode("latin-1")))
-    return (r.rc, "vg", probs, "", "")
+    return (r.rc, "vg", probs, "", "", "")
 
 
 # ----------------------------------------------------------------------------- inputs and edits
@@ -258,6 +264,57 @@ def cases_H(doc, hdrs):
             yield ("H", h.decode().replace(" ", "_"), "line %d" % (i + 1), doc.join(L[:i] + [h] + L[i + 1:]))
 
 
+CFG_VALID = {0: (0, 1, 2, 3, 4), 1: (0, 1, 2), 2: (0, 1), 3: (0, 1), 4: (0, 1), 5: (0, 1), 6: (0, 1)}     # README table
+
+
+def cfg_outside(k):
+    """values just outside the documented range on both sides, and huge ones"""
+    mx = max(CFG_VALID[k])
+    return ["-1", "%d" % (mx + 1), "%d" % (mx + 2), "2147483647", "1e10"]
+
+
+# text a user controls and that may reach a format string or a fixed buffer
+METACHARS = [b"%", b"%s", b"%d", b"%n", b"%1%", b"%|1$s|", b"100%", b"%%", b"%s%s%s%s%n", b"{}", b"\\", b"\"", b"'", b"a b",
+        b"$(x)`y`", b"A" * 300, b"A" * 70000]
+META_NAMES = ["100%.in", "point_%d_of_%s.in", "%1%.in", "%n%n%n%n.in", "%s", "%|1$s|", "%", "a b.in", "q\"uo'te.in",
+              "back\\slash.in", "$(x)`y`.in", "x" * 240 + ".in", "dir%d/in%s.slha"]
+
+
+def remove_block(data, name):
+    out, skip = [], False
+    for ln in data.split(b"\n"):
+        t = ln.split(b"#")[0].split()
+        if len(t) >= 2 and t[0].upper() in (b"BLOCK", b"DECAY"):
+            skip = t[1].upper() == name
+        if not skip:
+            out.append(ln)
+    return b"\n".join(out)
+
+
+def error_points(files):
+    """erroneous inputs of every input type, one per exit path: exception while reading the config / the parameters
+    (before setup), while setting the model up, problem flagged during the calculation"""
+    by = {n: (f, d) for n, f, d, _ in files}
+    ex = {f: d for n, f, d, isx in files if isx}
+    tp = lambda n: by["test_points/" + n][1]
+    bad = lambda d: re.sub(rb"(Block SMINPUTS[^\n]*\n\s*\d+\s+)\S+", rb"\1abc", d, count=1)
+    pts = [
+        ("slha", "read error (token abc)", bad(ex["slha"])),
+        ("slha", "no HMIX scale", remove_block(ex["slha"], b"HMIX")),
+        ("slha", "tan(beta) = 0", tp("problems_zero_TB.in")),
+        ("slha", "tan(beta) infinite", tp("problems_infinite_TB.in")),
+        ("slha", "negative soft mass", tp("problems_negative_soft_mass.in")),
+        ("gm2calc", "read error (token abc)", bad(ex["gm2calc"])),
+        ("gm2calc", "Mu = 0 at 2L", tp("problems_funcs_Mu_zero_2L.in")),
+        ("gm2calc", "problem flagged, result printed", tp("P1a_2L_resummed_diploma_thesis_Markus_Bach.in")),
+        ("thdm", "read error (token abc)", bad(ex["thdm"])),
+        ("thdm", "contradictory bases", tp("thdm_contradictory_input.in")),
+        ("thdm", "tan(beta) < 0", ex["thdm"] + b"Block MINPAR\n     3    -1\n"),
+        ("thdm", "invalid Yukawa type", ex["thdm"] + b"Block MINPAR\n    24     9\n"),
+    ]
+    return pts
+
+
 # ----------------------------------------------------------------------------- driver
 class Explorer:
     def __init__(self, ctx, runner):
@@ -270,7 +327,9 @@ class Explorer:
         if not items:
             return []
         res = self.R.run_many([(it[4], it[5]) for it in items])
-        for (kind, what, where, fmt, args, data), (rc, shape, probs, ho, he) in zip(items, res):
+        for it, (rc, shape, probs, ho, he, sig) in zip(items, res):
+            kind, what, where, fmt, args, data = it[:6]
+            extra = it[6] if len(it) > 6 else {}
             self.ctx.evals(1)
             self.counts[group] = self.counts.get(group, 0) + 1
             oc = "%s:%s" % (rc, shape)
@@ -281,8 +340,8 @@ class Explorer:
             for cls, detail in probs:
                 self.ctx.fail("%s:%s:%s:%s" % (kind, fmt or "-", cls, what),
                               "%s %s (%s, %s): %s: %s" % (group, what, where, " ".join(args) or "no arguments", cls, detail),
-                              {"args": list(args), "stdin": None if data is None else data.decode("latin-1"),
-                               "group": group, "what": what, "where": where, "valgrind": kind == "V"})
+                              dict({"args": list(args), "stdin": None if data is None else data.decode("latin-1"),
+                                    "group": group, "what": what, "where": where, "valgrind": kind == "V"}, **extra))
         return res
 
 
@@ -405,6 +464,122 @@ def run(ctx):
             items += [("A", "argv+stdin", repr(v), None, list(v), files[0][2]) for v in vecs if (not q or len(v) <= 1)]
             ex.run("argv", items)
 
+            # ---- GM2CalcConfig: documented values and values just outside, on valid AND erroneous points -------
+            pts = [(fmt, "valid " + name, data) for name, fmt, data, isx in files if isx]
+            errp = error_points(files)
+            chk = ex.run("config-boundary", [stdin_item("G", "point", "%s: %s" % (f, w), f, d) for f, w, d in errp])
+            good = [pt for pt, r in zip(errp, chk) if r[0] == 1]
+            if len({f for f, _, _ in good}) < 3 or len(good) < 8:
+                raise InfraError("erroneous reference points are not erroneous any more: %r"
+                                 % [(f, w, r[0]) for (f, w, _), r in zip(errp, chk)])
+            pts += [(f, "erroneous: " + w, d) for f, w, d in good]
+            cfgblk = lambda kv: b"Block GM2CalcConfig\n" + b"".join(b"  %d  %s\n" % (k, v.encode()) for k, v in kv)
+            items, meta = [], []
+            for f, w, d in pts:
+                for k in range(7):
+                    for v in ["%d" % x for x in CFG_VALID[k]] + cfg_outside(k):
+                        items.append(stdin_item("G", "GM2CalcConfig[%d]=%s" % (k, v), "%s input, %s" % (f, w), f, d + cfgblk([(k, v)])))
+                        meta.append((f, w, (k,), (v,)))
+                # pairs: the output format crossed with every other entry
+                for k in range(1, 7):
+                    v0s = cfg_outside(0) if q else ["%d" % x for x in CFG_VALID[0]] + cfg_outside(0)
+                    vks = (["0", "1"] if q else ["%d" % x for x in CFG_VALID[k]]) + ([] if q else cfg_outside(k))
+                    if q and k not in (3, 4, 5):
+                        continue
+                    for v0 in v0s:
+                        for vk in vks:
+                            items.append(stdin_item("G", "GM2CalcConfig[0]=%s,[%d]=%s" % (v0, k, vk), "%s input, %s" % (f, w), f,
+                                                    d + cfgblk([(0, v0), (k, vk)])))
+                            meta.append((f, w, (0, k), (v0, vk)))
+            res = ex.run("config-boundary", items)
+            # an out-of-range value is rejected (exit 1 + diagnostic, checked above) or treated exactly like a documented one
+            okres, nok = {}, {}
+            for (f, w, ks, vs), r in zip(meta, res):
+                if all(float(v) in CFG_VALID[k] for k, v in zip(ks, vs)):
+                    okres.setdefault((f, w, ks), set()).add(r[5])
+                    nok[(f, w, ks)] = nok.get((f, w, ks), 0) + 1
+            # the comparison needs the answers for ALL documented values of the entries involved (pairs: thorough only)
+            complete = {key for key, n in nok.items() if n == len(list(itertools.product(*[CFG_VALID[k] for k in key[2]])))}
+            for it, (f, w, ks, vs), r in zip(items, meta, res):
+                if all(float(v) in CFG_VALID[k] for k, v in zip(ks, vs)) or r[2]:
+                    continue
+                if r[0] != 1 and (f, w, ks) in complete and r[5] not in okres[(f, w, ks)]:
+                    ctx.fail("G:%s:out-of-range-accepted:%s" % (f, it[1]),
+                             "%s (%s): the value is outside the documented range but the run neither fails with a diagnostic nor "
+                             "answers like any documented value (exit %r, output kind %s)" % (it[1], it[2], r[0], r[1]),
+                             {"args": it[4], "stdin": it[5].decode("latin-1"), "group": "config-boundary", "what": it[1],
+                              "where": it[2], "valgrind": False,
+                              "documented_alternatives": [j[5].decode("latin-1") for j, m2 in zip(items, meta)
+                                                          if m2[:3] == (f, w, ks) and all(float(v) in CFG_VALID[k] for k, v in zip(ks, m2[3]))]})
+            if q:
+                thinning.append("config boundary pairs: out-of-range output formats x {0,1} of entries 3,4,5 only")
+
+            # ---- command line is input too: file names with format / shell metacharacters ------------------------
+            mdir = os.path.join(tmp, "m")
+            os.makedirs(os.path.join(mdir, "dir%d"), exist_ok=True)
+            exdata = {f: d for n, f, d, isx in files if isx}
+            items = []
+            for f, o in OPTS.items():
+                for nm in META_NAMES:
+                    pth = os.path.join(mdir, f + "_" + nm if "/" not in nm else nm.replace("/", "/" + f + "_"))
+                    with open(pth, "wb") as fh:
+                        fh.write(exdata[f])
+                    gone = os.path.join(tmp, "none", nm)
+                    items.append(("A", "existing:" + nm, f, f, [o + pth], None, {"files": {pth: exdata[f].decode("latin-1")}}))
+                    items.append(("A", "missing:" + nm, f, f, [o + gone], None))
+                    if not q or f != "gm2calc":
+                        for second in (["--bogus"], [""], [OPTS["gm2calc"] + "-"], [o + gone + "2"]):
+                            items.append(("A", "missing:" + nm + "+" + (second[0][:12] or "''"), f, f, [o + gone] + second, b""))
+                            items.append(("A", (second[0][:12] or "''") + "+missing:" + nm, f, f, second + [o + gone], b""))
+                items.append(("A", "missing:very-long-name", f, f, [o + os.path.join(tmp, "y" * 5000)], None))
+                items.append(("A", "missing:long-%-name", f, f, [o + os.path.join(tmp, "%s%d%n" * 400)], None))
+                unr = os.path.join(mdir, f + "_unreadable.in")
+                with open(unr, "wb") as fh:
+                    fh.write(exdata[f])
+                os.chmod(unr, 0)
+                items.append(("A", "unreadable", f, f, [o + unr], None))
+                items.append(("A", "option-without-=", f, f, [o[:-1]], b""))
+                items.append(("A", "option-without-=+name", f, f, [o[:-1], "100%.in"], b""))
+            for a in ("--%s%n%d", "-%", "%", "%n", "--slha-input-file%s=x", "--" + "z" * 5000, "--help=%s", "-h%n"):
+                items.append(("A", "unknown:" + a[:20], "-", None, [a], b""))
+                items.append(("A", "unknown:" + a[:20] + "+valid", "-", None, [a, OPTS["slha"] + "-"], files[0][2]))
+                items.append(("A", "valid+unknown:" + a[:20], "-", None, [OPTS["slha"] + "-", a], files[0][2]))
+            ex.run("argv-meta", items)
+
+            # ---- the same metacharacters inside the input: block names, comments, SPINFO/LOWEN text, tokens ------------
+            items = []
+            ebase = {}
+            for f, w, d in good:
+                if "read error" not in w:
+                    ebase.setdefault(f, (w, d))
+            for f in OPTS:
+                for w, d in (("valid", exdata[f]), ebase[f]):
+                    doc = Doc(d, f)
+                    hdr0 = doc.headers[0]
+                    dtoks = [t for t in doc.toks if not t[4] and t[6]]
+                    key0, val0 = [t for t in dtoks if t[5] == 0][0], [t for t in dtoks if t[5] == 1][0]
+                    L = doc.lines
+                    for m in METACHARS:
+                        mm = m if len(m) < 40 else m[:8] + b"...x%d" % len(m)
+                        var = [("block-name-first", b"Block " + m + b"\n   1   2.0\n" + d),
+                               ("block-name-last", d + b"Block " + m + b" Q= 1.0\n   1   2.0\n"),
+                               ("header-comment", doc.join(L[:hdr0] + [L[hdr0] + b" # " + m] + L[hdr0 + 1:])),
+                               ("data-comment", doc.join(L[:val0[0]] + [L[val0[0]] + b" #" + m] + L[val0[0] + 1:])),
+                               ("spinfo-first", b"Block SPINFO\n   1   " + m + b"\n   2   " + m + b"\n   3   " + m + b"\n   4   " + m + b"\n" + d),
+                               ("spinfo-last", d + b"Block SPINFO\n   3   " + m + b"\n   4   " + m + b"\n"),
+                               ("lowen", d + b"Block LOWEN\n   6   " + m + b"\nBlock SPhenoLowEnergy\n  21   " + m
+                                + b"\nBlock GM2CalcOutput\n   0   " + m + b"\n   1   " + m + b"\n"),
+                               ("value", doc.replace_tok(val0, m)),
+                               ("key", doc.replace_tok(key0, m)),
+                               ("extra-token", doc.join(L[:val0[0]] + [L[val0[0]] + b"   " + m] + L[val0[0] + 1:]))]
+                        for vn, dd in var:
+                            fmts = (None, 2, 3) if vn in ("lowen", "spinfo-first", "spinfo-last") else (None,)
+                            for of in fmts:
+                                d2 = dd if of is None else dd + b"Block GM2CalcConfig\n   0   %d\n" % of
+                                items.append(stdin_item("M", "%s<-%s%s" % (vn, mm.decode("latin-1"), "" if of is None else "/format%d" % of),
+                                                        "%s input, %s" % (f, w), f, d2))
+            ex.run("input-meta", items)
+
             # ---- thorough: pairs of token edits on the examples ------------------------------------
             if not q:
                 for name, fmt, data, is_ex in files[:3]:
@@ -485,6 +660,13 @@ def replay(ctx, path):
     rec = json.load(open(path))
     d = rec["data"]
     data = None if d["stdin"] is None else d["stdin"].encode("latin-1")
+    made = []
+    for pth, content in (d.get("files") or {}).items():
+        if not os.path.exists(pth):
+            os.makedirs(os.path.dirname(pth), exist_ok=True)
+            with open(pth, "wb") as fh:
+                fh.write(content.encode("latin-1"))
+            made.append(pth)
     if d.get("valgrind"):
         build.ensure("plain")
         args = list(d["args"])
@@ -497,6 +679,13 @@ def replay(ctx, path):
         res = judge(d["args"], data, r)
     print("replay: %s %s (%s): exit %r, stdout shape %s" % (d["group"], d["what"], d["where"], res[0], res[1]))
     bad = list(res[2])
+    if d.get("documented_alternatives") is not None and not bad and res[0] != 1:
+        sigs = set()
+        for alt in d["documented_alternatives"]:
+            ra = clirun13.run_one(build.cli("asan"), d["args"], alt.encode("latin-1"), clirun13.SAN_ENV, 60.0)
+            sigs.add(judge(d["args"], alt.encode("latin-1"), ra)[5])
+        if res[5] not in sigs:
+            bad.append(("out-of-range-accepted", "exit %r, answer differs from that of every documented value" % res[0]))
     if d.get("compare_file"):
         tmp = "/var/tmp/c14_replay_%d.in" % os.getpid()
         try:
@@ -510,6 +699,8 @@ def replay(ctx, path):
         finally:
             if os.path.exists(tmp):
                 os.remove(tmp)
+    for pth in made:
+        os.remove(pth)
     for cls, detail in bad:
         print("replay: %s: %s" % (cls, detail))
     if bad:
